@@ -76,9 +76,14 @@ impl Prop for P {
             Case::Headers { cmf } => headers(*cmf, cx),
             Case::Emit { data, cfg, sched, driver } => {
                 let x = data.expand();
-                let mut c = cfg.make();
+                // one case in four: the compressor is born raw and switched to zlib before any data
+                let switched = sched.finish_out.first().map(|v| v % 4 == 0).unwrap_or(false);
+                let mut c = if switched { cfg.make_born_raw_then_zlib() } else { cfg.make() };
                 if !cfg.is_zlib() {
                     return Ok(());
+                }
+                if switched {
+                    cx.class("emit:born-raw-switched-to-zlib");
                 }
                 let run = drive_compress(&mut c, &x, sched, *driver)?;
                 let o = &run.out;
